@@ -1384,7 +1384,9 @@ def main(chk: Check):
         "wrap": ex.submit(chk.coq_eval, "wrap", IMPORTS, "str * str * shvars", wrap_cases, ["mismatches run_wrap cases"]),
         "insopts": ex.submit(chk.coq_eval, "insopts", IMPORTS, "str", io_cases, ["mismatches run_insopts cases"]),
         "helper": ex.submit(chk.coq_eval, "helper", IMPORTS, "inv", hcases,
-                            ["mismatches run_helper cases", "where_ (fun i r => negb (spec_helper_ok i r)) cases"], 100),
+                            ["where_ (fun i r => negb (val_eqb (run_helper i) r) && negb (is_unmodelled (run_helper i))) cases",
+                             "where_ (fun i r => negb (spec_helper_ok i r)) cases",
+                             "where_ (fun i r => is_unmodelled (run_helper i)) cases"], 100),
     }
     r = futs["path"].result()
     if r is not None:
@@ -1412,4 +1414,7 @@ def main(chk: Check):
     if r is not None:
         report(chk, "helper", hcases, hmeta, r[0], r[1],
                "the image after the helper is not what PMS prescribes (Spec_C33.spec_helper_ok)")
+        # an image symlink used as a directory component (the real filesystem follows it, the lexical image
+        # model does not): not compared against the model; the reference has no prescription there either
+        chk.cov["unmodelled_symlink_component_cases"] = len(r[2])
     lap("coq_helper")
